@@ -59,3 +59,203 @@ pub(crate) use ready_now;
 pub fn is_protocol(e: &MuxErr) -> bool {
     matches!(e, ChMuxError::Protocol(_))
 }
+
+/// Simplified view of a queued port event that owns no heap data except `Bytes`
+/// (everything else is leaked instead of dropped: drop glue of `PortEvt` is costly).
+pub enum Evt {
+    Empty,
+    ReturnCredits { remote_port: u32, credits: u32 },
+    SendData { remote_port: u32, data: Bytes, first: bool, last: bool },
+    SenderDropped { local_port: u32 },
+    ReceiverClosed { local_port: u32 },
+    ReceiverDropped { local_port: u32 },
+    Rejected { remote_port: u32, no_ports: bool },
+    Other,
+}
+
+/// Pops the next event of a port-event queue without running any destructor.
+pub fn pop_evt(rx: &mut tokio::sync::mpsc::Receiver<crate::chmux::verif::mux::VPortEvt>) -> Evt {
+    match rx.try_recv() {
+        Err(_) => Evt::Empty,
+        Ok(e) => match hx::port_evt_view(e) {
+            hx::PortEvtView::ReturnCredits { remote_port, credits } => Evt::ReturnCredits { remote_port, credits },
+            hx::PortEvtView::SendData { remote_port, data, first, last } => {
+                Evt::SendData { remote_port, data, first, last }
+            }
+            hx::PortEvtView::SenderDropped { local_port } => Evt::SenderDropped { local_port },
+            hx::PortEvtView::ReceiverClosed { local_port } => Evt::ReceiverClosed { local_port },
+            hx::PortEvtView::ReceiverDropped { local_port } => Evt::ReceiverDropped { local_port },
+            hx::PortEvtView::Rejected { remote_port, no_ports } => Evt::Rejected { remote_port, no_ports },
+            other => {
+                std::mem::forget(other);
+                Evt::Other
+            }
+        },
+    }
+}
+
+/// Wraps a harness so that every `std::collections::{HashMap, HashSet}` operation remoc's
+/// dispatcher and port allocator perform is executed by the side-table model in
+/// `/verif/models/tokio/src/maps.rs` (std's hashbrown tables are out of CBMC's reach).
+macro_rules! with_map_model {
+    ($($item:tt)*) => {
+        #[kani::stub(std::hash::RandomState::new, tokio::maps::map_random_state)]
+        #[kani::stub(std::collections::HashMap::insert, tokio::maps::hm_insert)]
+        #[kani::stub(std::collections::HashMap::get, tokio::maps::MapModel::get)]
+        #[kani::stub(std::collections::HashMap::get_mut, tokio::maps::MapModel::get_mut)]
+        #[kani::stub(std::collections::HashMap::contains_key, tokio::maps::MapModel::contains_key)]
+        #[kani::stub(std::collections::HashMap::remove, tokio::maps::MapModel::remove)]
+        #[kani::stub(std::collections::HashMap::remove_entry, tokio::maps::MapModel::remove_entry)]
+        #[kani::stub(std::collections::HashMap::len, tokio::maps::hm_len)]
+        #[kani::stub(std::collections::HashMap::is_empty, tokio::maps::hm_is_empty)]
+        #[kani::stub(std::collections::HashSet::insert, tokio::maps::hs_insert)]
+        #[kani::stub(std::collections::HashSet::contains, tokio::maps::SetModel::contains)]
+        #[kani::stub(std::collections::HashSet::remove, tokio::maps::SetModel::remove)]
+        #[kani::stub(std::collections::HashSet::len, tokio::maps::hs_len)]
+        #[kani::stub(std::collections::HashSet::is_empty, tokio::maps::hs_is_empty)]
+        $($item)*
+    };
+}
+pub(crate) use with_map_model;
+
+/// Stub for `<PortNumber as Drop>::drop` in harnesses that hold no port number: keeps the
+/// (unreachable but symbolically explored) destructor paths of queued events cheap.
+pub fn noop_port_number_drop(_p: &mut crate::chmux::PortNumber) {}
+
+// ---------------------------------------------------------------------------
+// Dispatcher fixtures
+
+use crate::chmux::verif::{ExchangedCfg, MultiplexMsg};
+
+pub struct MuxParams {
+    pub local_chunk: u32,
+    pub local_buffer: u32,
+    pub remote_chunk: u32,
+    pub remote_buffer: u32,
+    pub remote_version: u8,
+}
+
+impl MuxParams {
+    /// Arbitrary valid exchanged parameters (both endpoints enforce chunk >= 4, buffer >= 4).
+    pub fn any() -> Self {
+        let p = MuxParams {
+            local_chunk: kani::any(),
+            local_buffer: kani::any(),
+            remote_chunk: kani::any(),
+            remote_buffer: kani::any(),
+            remote_version: kani::any(),
+        };
+        kani::assume(p.local_chunk >= 4 && p.local_buffer >= 4 && p.remote_chunk >= 4 && p.remote_buffer >= 4);
+        p
+    }
+
+    pub fn fixed() -> Self {
+        MuxParams { local_chunk: 8, local_buffer: 16, remote_chunk: 8, remote_buffer: 16, remote_version: 3 }
+    }
+}
+
+/// A dispatcher as `ChMux::new` leaves it after the hello exchange (no transport attached):
+/// shared event queue of 2, connect queue of 1 (listener queues hold 2), transport send queue of 2.
+pub fn new_mux(p: &MuxParams) -> (Mux, hx::MuxEnv) {
+    let mut cfg = Cfg::default();
+    cfg.chunk_size = p.local_chunk;
+    cfg.receive_buffer = p.local_buffer;
+    cfg.max_ports = 8;
+    cfg.shared_send_queue = 2;
+    cfg.connect_queue = 1;
+    cfg.max_data_size = 16;
+    cfg.max_received_ports = 4;
+    let remote = ExchangedCfg {
+        connection_timeout: None,
+        chunk_size: p.remote_chunk,
+        port_receive_buffer: p.remote_buffer,
+        connect_queue: 1,
+    };
+    hx::mux_new::<NullSink, NullStream>(cfg, remote, p.remote_version, 2)
+}
+
+/// Enters a connected port through the real `create_port`.
+pub fn add_connected(mux: &mut Mux, local: u32, remote: u32) -> (crate::chmux::Sender, crate::chmux::Receiver) {
+    let pn = hp::allocator_reserve(&hx::mux_allocator(mux), local);
+    mux.verif_create_port(pn, remote)
+}
+
+/// Enters a connected port without building user-facing objects (cheap fixture).
+pub fn insert_connected(mux: &mut Mux, local: u32, remote: u32) -> hx::PortEnds {
+    let pn = hp::allocator_reserve(&hx::mux_allocator(mux), local);
+    hx::mux_insert_connected(mux, pn, remote)
+}
+
+/// Arbitrary flags of a connected port.
+pub fn any_port_flags() -> hx::PortFlags {
+    hx::PortFlags {
+        remote_sender_finished: kani::any(),
+        receiver_closed: kani::any(),
+        receiver_dropped: kani::any(),
+        sender_dropped: kani::any(),
+        remote_receiver_closed: kani::any(),
+        remote_receiver_dropped: kani::any(),
+    }
+}
+
+/// Next message the dispatcher queued for the transport (None if nothing was queued).
+pub fn sent(env: &mut hx::MuxEnv) -> Option<(MultiplexMsg, Option<Bytes>)> {
+    env.send.try_recv()
+}
+
+/// Handles one local event with the real `handle_event` (one atomic dispatcher step).
+macro_rules! step_event {
+    ($mux:expr, $env:expr, $evt:expr) => {{
+        let mut slot = crate::verif_harness::util::Slot::new($mux.verif_handle_event(&$env.send, $evt));
+        match slot.poll() {
+            std::task::Poll::Ready(r) => r,
+            std::task::Poll::Pending => panic!("handle_event must not suspend"),
+        }
+    }};
+}
+pub(crate) use step_event;
+
+/// Handles one received message with the real `handle_received_msg` (one atomic dispatcher step).
+macro_rules! step_msg {
+    ($mux:expr, $msg:expr, $data:expr) => {{
+        let mut slot = crate::verif_harness::util::Slot::new($mux.verif_handle_received_msg($msg, $data));
+        match slot.poll() {
+            std::task::Poll::Ready(r) => r,
+            std::task::Poll::Pending => panic!("handle_received_msg must not suspend"),
+        }
+    }};
+}
+pub(crate) use step_msg;
+
+/// True if all four release conditions of a port hold.
+pub fn all_four(f: &hx::PortFlags) -> bool {
+    f.sender_dropped && f.receiver_dropped && f.remote_sender_finished && f.remote_receiver_dropped
+}
+
+/// Item of a port's receive queue without destructors being run.
+pub enum RxItem {
+    Empty,
+    Data { buf: Bytes, first: bool, last: bool, credit: u32 },
+    Ports { requests: Vec<crate::chmux::Request>, first: bool, last: bool, credit: u32 },
+    Finished,
+}
+
+/// Pops the next item from the queue feeding a `chmux::Receiver` (the harness keeps the receiving end
+/// inside the real `Receiver`; this helper is for queues the harness owns).
+pub fn rx_pop_raw(rx: &mut tokio::sync::mpsc::UnboundedReceiver<crate::chmux::verif::receiver::VPortReceiveMsg>) -> RxItem {
+    match rx.try_recv() {
+        Err(_) => RxItem::Empty,
+        Ok(m) => match hr::port_receive_view(m) {
+            hr::PortReceiveView::Data { buf, first, last, credit } => RxItem::Data { buf, first, last, credit },
+            hr::PortReceiveView::PortRequests { requests, first, last, credit } => {
+                RxItem::Ports { requests, first, last, credit }
+            }
+            hr::PortReceiveView::Finished => RxItem::Finished,
+        },
+    }
+}
+
+/// Pops the next item queued for a real `chmux::Receiver`.
+pub fn rx_pop(rx: &mut crate::chmux::Receiver) -> RxItem {
+    rx_pop_raw(hr::receiver_queue(rx))
+}
